@@ -34,13 +34,29 @@ Definition adv (w : site) (s : bytes) (k : nat) : res bytes :=
 
 Definition memb (c : N) (l : list N) : bool := existsb (N.eqb c) l.
 
-(* regex.c's private uc_len: looks at the lead byte only *)
-Definition re_uclen (c : N) : nat :=
+(* regex.c's private uc_len: the sequence length the lead byte asks for ... *)
+Definition re_ucfull (c : N) : nat :=
   if negb (bit c 128 && bit c 64) then (if c =? 0 then 0%nat else 1%nat)
   else if negb (bit c 32) then 2%nat
   else if negb (bit c 16) then 3%nat
   else if negb (bit c 8) then 4%nat
   else 1%nat.
+(* ... cut at the terminator:  for (i = 1; i < n; i++) if (!s[i]) return i;  *)
+Fixpoint ucl_scan (k : nat) (r : bytes) (i : nat) : nat :=
+  match k with
+  | O => i
+  | S k' => match r with
+            | [] => i
+            | b :: r' => if b =? 0 then i else ucl_scan k' r' (S i)
+            end
+  end.
+Definition re_uclen (s : bytes) : nat :=
+  match s with
+  | [] => 0%nat
+  | c :: r => if negb (bit c 128 && bit c 64) then (if c =? 0 then 0%nat else 1%nat)
+              else ucl_scan (re_ucfull c - 1) r 1
+  end.
+Definition re_uclen_at (s : bytes) (i : nat) : nat := re_uclen (skipn i s).
 
 Inductive atom :=
 | AChr (s : bytes) | AAny | ABrk (s : bytes) | ABeg | AEnd | AWBeg | AWEnd.
